@@ -271,6 +271,9 @@ func c04NewRunner(c *core.Ctx, workers int) *c04Runner {
 		if workers > 0 {
 			s.SetWorkerCount(workers)
 		}
+		if workers == 2 {
+			s.SetInChannelSize(4) // far more resources pending than the in-channel size
+		}
 		s.SetQueryEventDuration(20 * time.Millisecond)
 		scriptedService(s, tbl, nil)
 	})
@@ -732,8 +735,16 @@ func c04Concurrent(c *core.Ctx, p c04Params) {
 	// wait for completion of all
 	for g := range results {
 		for _, pd := range results[g] {
-			if !waitCh(pd.done, 30*time.Second) {
-				c.Inconclusive("request.done not seen for " + pd.req.Subject)
+			if !waitCh(pd.done, 20*time.Second) {
+				// decided on state: no callback is executing and nothing is queued for the workers,
+				// so this request will never be processed and never answered
+				_, _, queued, groups := rn.rig.S.VerifState()
+				if sched.Count("worker.before") == sched.Count("worker.after") && queued == 0 {
+					c.Violation("C04/no-response:never-processed", fmt.Sprintf("%s was delivered to the service but is never processed: the work queue is empty and no callback is running (%d group work items exist that no worker holds)", pd.req.Subject, groups),
+						map[string]interface{}{"request": pd.req, "workers": p.Workers, "queued": queued, "groups": groups})
+				} else {
+					c.Inconclusive("request.done not seen for " + pd.req.Subject)
+				}
 				return
 			}
 		}
